@@ -58,7 +58,7 @@ class GxCore:
         if f.get("enums2"):
             self.enums = self.enums + [("Lvl", [("Low", 10), ("Mid", 20), ("High", 35)])]
             self.structs = self.structs + [("Px", [("c", "Color"), ("l", "Lvl"), ("n", "int")])]
-            self.gx_types |= {"Lvl", "Px", ACOL}
+            self.gx_types |= {"Lvl", "Px"} | (set() if "enum_array" in self.gx_avoid else {ACOL})
         if f.get("lists"):
             self.gx_types |= {LI, LS}
 
@@ -185,6 +185,8 @@ class GxCore:
                 opts.append(lambda: Call(r.choice(["cast_string", "to_string"]), r.choice([I(r.randint(-9, 99)), B(True), B(False), S("s"), I(2 ** 40)])))
             if f.get("enums2") and "enum_to_string" not in self.gx_avoid:
                 opts.append(lambda: Call("int_to_string", Enum(r.choice(["Color.Blue", "Lvl.Mid", "Color.Red"]))))
+        if f.get("ctrl") and d > 0 and "if_expression" not in self.gx_avoid:       # SPECIFICATION 4.8: if as an expression
+            opts.append(lambda: IfX(self.pbool(sc, 1), self.expr(ty, sc, d - 1), self.expr(ty, sc, d - 1)))
         if not opts:
             return None
         return r.choice(opts)()
@@ -219,6 +221,9 @@ class GxIdioms:
             return _prints(Field(e, "tag"), Field(Field(e, "p"), "y"), Field(e, "ok"))
         if ty == "(int, string)":
             return _prints(TIdx(e, 0), TIdx(e, 1))
+        if ty in ("array<int>", "array<string>", AB) and e["k"] == "var" and "for_in_array" not in self.gx_avoid and self.r.random() < 0.3:
+            x = self.fresh("e")
+            return [Println(Call("array_length", e)), ForIn(x, e, [Println(V(x))])]
         if ty in ("array<int>", "array<string>", AB, ACOL):
             n = self.fresh("n")
             i = self.fresh("i")
@@ -268,7 +273,7 @@ class GxIdioms:
     def ix_unions2_let_match(self, sc, depth, inloop, ret):
         ty = self.r.choice(["Msg", "Res", "Msg"])
         with self.pure():
-            n, st = self.declare(sc, "u", ty, self.gx_lit(ty, sc, 2), self.r.random() < 0.4)
+            n, st = self.declare(sc, "uv", ty, self.gx_lit(ty, sc, 2), self.r.random() < 0.4)
         return [st, self.match_show(V(n), ty, sc)]
 
     def ix_unions2_call_helpers(self, sc, depth, inloop, ret):
@@ -277,7 +282,7 @@ class GxIdioms:
         k = I(r.randint(0, 4))
         c = r.random()
         if c < 0.35:
-            n, st = self.declare(sc, "u", "Msg", Call("gx_mkmsg", k))
+            n, st = self.declare(sc, "uv", "Msg", Call("gx_mkmsg", k))
             return [st, Println(Call("gx_showmsg", V(n)))]
         if c < 0.6:
             return [Println(Call("gx_msgcode", Call("gx_mkmsg", k)))]
@@ -295,14 +300,14 @@ class GxIdioms:
         if c < 0.5:
             out += self.show(V(n), "Holder", sc)
         else:       # the union field first copied into a local
-            m, st2 = self.declare(sc, "u", "Msg", Field(V(n), "m"))
+            m, st2 = self.declare(sc, "uv", "Msg", Field(V(n), "m"))
             out += [st2, self.match_show(V(m), "Msg", sc), Println(Field(V(n), "n"))]
         return out
 
     def ix_unions2_set_union(self, sc, depth, inloop, ret):
         ty = self.r.choice(["Msg", "Res"])
         with self.pure():
-            n, st = self.declare(sc, "u", ty, self.gx_lit(ty, sc, 1), True)
+            n, st = self.declare(sc, "uv", ty, self.gx_lit(ty, sc, 1), True)
             st2 = Set(n, self.gx_lit(ty, sc, 1))
         return [st, self.match_show(V(n), ty, sc), st2, self.match_show(V(n), ty, sc)]
 
@@ -312,7 +317,7 @@ class GxIdioms:
         if not self.impure_ok: return None
         acc, st0 = self.declare(sc, "acc", "int", I(0), True)
         i = self.fresh("i")
-        u = self.fresh("u")
+        u = self.fresh("uv")
 
         def extra(vn, b):
             c = r.random()
@@ -333,7 +338,7 @@ class GxIdioms:
         r = self.r
         x, y = I(r.randint(-5, 50)), I(r.randint(-5, 50))
         p, s1 = self.declare(sc, "pt", "Point", SLit("Point", [("x", I(r.randint(0, 9))), ("y", I(r.randint(10, 19)))]))
-        u, s2 = self.declare(sc, "u", "Msg", ULit("Msg.Move", [("x", x), ("y", y)]))
+        u, s2 = self.declare(sc, "uv", "Msg", ULit("Msg.Move", [("x", x), ("y", y)]))
         w, s3 = self.declare(sc, "rs", "Res", r.choice([ULit("Res.Bad", [("tag", S("bad")), ("code", I(r.randint(0, 99))), ("ok", B(r.random() < 0.5))]),
                                                         ULit("Res.Ok", [("v", I(r.randint(0, 99))), ("tag", S("fine"))]),
                                                         ULit("Res.Pt", [("p", V(p))])]))
@@ -459,7 +464,51 @@ class GxIdioms:
             out.append(Ex(Call("array_set", V(a), I(r.randint(0, n - 1)), self.pstr(sc))))
         return out + self.show(V(a), "array<string>", sc)
 
+    def ix_nested_tuples(self, sc, depth, inloop, ret):
+        """tuples of three elements, a tuple inside a tuple, a tuple holding a struct"""
+        r = self.r
+        c = r.random()
+        with self.pure():
+            if c < 0.35:
+                n, st = self.declare(sc, "t3", "(int, string, bool)", TLit([self.pint(sc), self.pstr(sc), self.pbool(sc)]))
+                return [st, Println(TIdx(V(n), 0)), Println(TIdx(V(n), 1)), Println(TIdx(V(n), 2))]
+            if c < 0.7 and "nested_tuple_in_tuple" not in self.gx_avoid:
+                n, st = self.declare(sc, "tt", "((int, string), int)", TLit([TLit([self.pint(sc), self.pstr(sc)]), self.pint(sc)]))
+                i, st2 = self.declare(sc, "ti", "(int, string)", TIdx(V(n), 0))
+                return [st, Println(TIdx(V(n), 1)), st2, Println(TIdx(V(i), 1)), Println(TIdx(V(i), 0))]      # (tt.0.0 would lex as the float 0.0)
+            if "tuple_of_struct" in self.gx_avoid: return None
+            n, st = self.declare(sc, "tp", "(Point, int)", TLit([self.lit("Point", sc, 1), self.pint(sc)]))
+            p, st2 = self.declare(sc, "tq", "Point", TIdx(V(n), 0))
+            return [st, st2, Println(Field(V(p), "y")), Println(TIdx(V(n), 1))]
+
+    def ix_nested_helpers_roundtrip(self, sc, depth, inloop, ret):
+        """nested values through calls: a matrix made by one function summed by another, points made, changed and summed"""
+        if not self.impure_ok or "gx_matrix" not in self.gx_helper_names(): return None
+        r = self.r
+        c = r.random()
+        if c < 0.4:
+            return [Println(Call("gx_msum", Call("gx_matrix", I(r.randint(0, 3)), I(r.randint(0, 3)))))]
+        if c < 0.7:
+            return [Println(Call("gx_sumpts", Call("gx_pts", I(r.randint(0, 5)))))]
+        n, st = self.declare(sc, "dp", "Deeper", Call("gx_deep", I(r.randint(0, 4))))
+        return [st] + self.show(V(n), "Deeper", sc) + [Println(Call("gx_sumpts", Field(V(n), "ps")))]
+
     # ================================================================== strings
+    def ix_strings_maps(self, sc, depth, inloop, ret):
+        """HashMap<string, string> / <string, int> with keys and values that need escapes, the empty key, a missing key"""
+        r = self.r
+        vty = r.choice(["string", "int"])
+        mty = "HashMap<string, %s>" % vty
+        m, st = self.declare(sc, "sm", mty, Call("map_new"))
+        keys = r.sample(self.ESC, 3)
+        val = (lambda: S(r.choice(self.ESC))) if vty == "string" else (lambda: I(r.randint(-5, 99)))
+        out = [st] + [Ex(Call("map_put", V(m), S(k), val())) for k in keys] + [Ex(Call("map_put", V(m), S(keys[0]), val()))]
+        out += [Println(Call("map_size", V(m))), Println(Call("map_get", V(m), S(keys[1]))), Println(Call("map_has", V(m), S(keys[2]))),
+                Println(Call("map_get", V(m), S("missing"))), Println(Call("map_has", V(m), S(keys[0] + "x")))]
+        if r.random() < 0.5:
+            out += [Ex(Call("map_remove", V(m), S(keys[1]))), Println(Call("map_size", V(m))), Println(Call("map_has", V(m), S(keys[1])))]
+        return out
+
     ESC = ["a\tb", "l1\nl2", "say \"hi\"", "c:\\dir", "", " ", "\\", "\t", "end\n", "\"", "mix\t\"\\\n."]
 
     def ix_strings_escapes(self, sc, depth, inloop, ret):
@@ -720,7 +769,7 @@ class GxIdioms:
             el = self.gx_nest(Scope_(sc), levels - 1, inloop, ret, tag + "e") if r.random() < 0.6 else []
             return pre + [If(cond, th, el)] + post
         if kind == "block":
-            return pre + [Block(self.gx_nest(Scope_(sc), levels - 1, inloop, ret, tag + "b"))] + post
+            return pre + [If(B(True), self.gx_nest(Scope_(sc), levels - 1, inloop, ret, tag + "b"), [])] + post
         if kind == "while":
             k = self.fresh("k")
             sc.vars.append((k, "int", False))
@@ -783,11 +832,11 @@ class GxIdioms:
         if kind == "let_same":
             with self.pure():
                 inner = [Let(name, ty, I(r.randint(100, 199)) if ty == "int" else S("inner")), Println(V(name))]
-            mid = [If(self.pbool(sc), inner, [Println(S("skip"))])] if r.random() < 0.5 else [Block(inner)]
+            mid = [If(self.pbool(sc), inner, [Println(S("skip"))])] if r.random() < 0.5 else [If(B(True), inner, [])]
         elif kind == "let_other":
             oty = "string" if ty == "int" else "int"
             inner = [Let(name, oty, S("other") if oty == "string" else I(r.randint(200, 299))), Println(V(name))]
-            mid = [Block(inner)]
+            mid = [If(Bin("==", I(1), I(1)), inner, [])]
         elif kind == "for":
             mid = [For(name, I(r.randint(0, 2)), I(r.randint(2, 4)), [Println(V(name))])]
         elif kind == "forin":
@@ -856,17 +905,34 @@ class GxIdioms:
             return [st, Println(Call("gx_fibm", I(r.randint(0, 15)), V(m))), Println(Call("map_size", V(m)))]
         return [Println(Call("gx_collatz", I(r.randint(1, 12)), I(0)))]
 
+    def ix_recursion_composites(self, sc, depth, inloop, ret):
+        r = self.r
+        if not self.impure_ok: return None
+        c = r.random()
+        if c < 0.5:
+            with self.pure():
+                p, st = self.declare(sc, "rp", "Point", Call("gx_walk", self.lit("Point", sc, 1), I(r.randint(0, 5))))
+            return [st, Println(Field(V(p), "x")), Println(Field(V(p), "y"))]
+        return [Println(Call("gx_shrink", ULit("Shape.Rect", [("w", I(r.randint(0, 6))), ("h", I(r.randint(0, 6)))]), I(0)))]
+
     # ================================================================== enums2
     def ix_enums2_arith(self, sc, depth, inloop, ret):
         r = self.r
         e = lambda: Enum(r.choice(["Color.Red", "Color.Green", "Color.Blue", "Lvl.Low", "Lvl.Mid", "Lvl.High"]))
+
+        def pair():          # two operands of a comparison: of one enum type when comparisons across enum types are avoided
+            if "compare_two_enums" not in self.gx_avoid:
+                return e(), e()
+            ty = r.choice(["Color", "Lvl"])
+            vs = {"Color": ["Red", "Green", "Blue"], "Lvl": ["Low", "Mid", "High"]}[ty]
+            return Enum("%s.%s" % (ty, r.choice(vs))), Enum("%s.%s" % (ty, r.choice(vs)))
         out = []
         for _ in range(r.randint(2, 5)):
             c = r.random()
             if c < 0.3: out.append(Println(Bin(r.choice(["+", "-", "*", "/", "%"]), e(), I(r.randint(1, 9)))))
             elif c < 0.5: out.append(Println(Bin(r.choice(["+", "-", "*"]), e(), e())))
-            elif c < 0.7: out.append(Println(Bin(r.choice(["<", "<=", ">", ">=", "==", "!="]), e(), e())))
-            elif c < 0.8: out.append(Println(Un("-", e())))
+            elif c < 0.7: out.append(Println(Bin(r.choice(["<", "<=", ">", ">=", "==", "!="]), *pair())))
+            elif c < 0.8: out.append(Println(Bin("-", I(0), e())))
             elif c < 0.9: out.append(Println(Call("abs" if "enum_to_string" in self.gx_avoid else r.choice(["abs", "int_to_string"]), e())))
             else: out.append(Println(Call(r.choice(["min", "max"]), e(), I(r.randint(0, 30)))))
         return out
@@ -891,7 +957,7 @@ class GxIdioms:
         if c < 0.35:
             p, st = self.declare(sc, "px", "Px", SLit("Px", [("c", cv()), ("l", lv()), ("n", self.pint(sc))]))
             return [st] + self.show(V(p), "Px", sc) + [Println(Bin("==", Field(V(p), "c"), cv())), Println(Bin("+", Field(V(p), "l"), Field(V(p), "n")))]
-        if c < 0.55:
+        if c < 0.55 and "enum_array" not in self.gx_avoid:
             if "enum_array_literal" not in self.gx_avoid and r.random() < 0.6:
                 a, st = self.declare(sc, "ea", ACOL, ALit("Color", [cv() for _ in range(r.randint(1, 3))]))
                 return [st] + self.show(V(a), ACOL, sc)
@@ -957,6 +1023,9 @@ class GxProgram:
                 gl.append(("gx_d", "int", False, Bin("+", V(ints[0][0]), I(r.randint(1, 5))))); gsc.vars.append(("gx_d", "int", False))
                 if r.random() < 0.5:
                     gl.append(("gx_ds", "string", False, Bin("+", S("d="), i2s(V("gx_d"))))); gsc.vars.append(("gx_ds", "string", False))
+            if r.random() < 0.5 and "global_init_call" not in self.gx_avoid:          # initialised by a call (the function is defined further down)
+                gl.append(("gx_c", "int", False, Call("gx_ginit", I(r.randint(0, 9))))); gsc.vars.append(("gx_c", "int", False))
+                H.append(Func("gx_ginit", [("k", "int")], "int", [Ret(Bin("+", Bin("*", V("k"), V("k")), I(1)))]))
             mg = [g for g in self.gx_globals if g[2]]
             if mg:
                 body, shw = [], []
@@ -985,6 +1054,14 @@ class GxProgram:
             H.append(Func("gx_fibm", [("n", "int"), ("memo", "HashMap<int, int>")], "int", [If(Bin("<", V("n"), I(2)), [Ret(V("n"))], []), If(Call("map_has", V("memo"), V("n")), [Ret(Call("map_get", V("memo"), V("n")))], []),
                                                                                            Let("a", "int", Call("gx_fibm", Bin("-", V("n"), I(1)), V("memo"))), Let("b", "int", Call("gx_fibm", Bin("-", V("n"), I(2)), V("memo"))),
                                                                                            Ex(Call("map_put", V("memo"), V("n"), Bin("+", V("a"), V("b")))), Ret(Bin("+", V("a"), V("b")))]))
+            H.append(Func("gx_walk", [("p", "Point"), ("n", "int")], "Point", [If(Bin("<=", V("n"), I(0)), [Ret(V("p"))], []),
+                                                                              Ret(Call("gx_walk", SLit("Point", [("x", Bin("+", Field(V("p"), "x"), V("n"))), ("y", Bin("-", Field(V("p"), "y"), I(1)))]), Bin("-", V("n"), I(1))))]))
+            H.append(Func("gx_shrink", [("s", "Shape"), ("steps", "int")], "int", [
+                Match(V("s"), [("Shape.Circle", "c", [Ret(Bin("+", Bin("*", V("steps"), I(100)), Field(V("c"), "r")))]),
+                               ("Shape.Rect", "q", [If(Bin("<=", Field(V("q"), "w"), I(0)), [Ret(Call("gx_shrink", ULit("Shape.Circle", [("r", Field(V("q"), "h"))]), Bin("+", V("steps"), I(1))))], []),
+                                                    Ret(Call("gx_shrink", ULit("Shape.Rect", [("w", Bin("-", Field(V("q"), "w"), I(1))), ("h", Field(V("q"), "h"))]), Bin("+", V("steps"), I(1))))]),
+                               ("Shape.Empty", "e", [Ret(V("steps"))])]),
+                Ret(I(-1))]))
             H.append(Func("gx_collatz", [("n", "int"), ("steps", "int")], "int", [If(Bin("<=", V("n"), I(1)), [Ret(V("steps"))], []),
                                                                                  If(Bin("==", Bin("%", V("n"), I(2)), I(0)), [Ret(Call("gx_collatz", Bin("/", V("n"), I(2)), Bin("+", V("steps"), I(1))))], []),
                                                                                  Ret(Call("gx_collatz", Bin("+", Bin("*", V("n"), I(3)), I(1)), Bin("+", V("steps"), I(1))))]))
